@@ -13,7 +13,15 @@ import (
 	"time"
 )
 
-const verifRoot = "/verif"
+// verifRoot is the directory the check runs in: $VERIF_ROOT (exported by
+// ./check: the directory of the script, so that a snapshot of /verif run by
+// `vp run` writes into the snapshot), else /verif.
+var verifRoot = func() string {
+	if r := os.Getenv("VERIF_ROOT"); r != "" {
+		return r
+	}
+	return "/verif"
+}()
 
 // outRoot is where a run writes (work files, replays, evidence). It is
 // /verif, except when the check was pointed at a scratch copy of the
